@@ -191,6 +191,15 @@ CaseResult run_case(Tape &t, long sweep)
       cached = r0;
     }
   }
+  // in a quarter of the cases with a deadline the caller polls first (timeout 0; an expired deadline is
+  // reported as an event): reporting a deadline must not change what a later stop does with it
+  if (c.deadline && !reaped && (c.stop_after + (int64_t) c.exit_code) % 4 == 0) {
+    reproc_event_source src = { ch.p, REPROC_EVENT_EXIT, 0 };
+    int64_t tp = w.now;
+    int pr = reproc_poll(&src, 1, 0);
+    res.cls((pr == 1 && (src.events & REPROC_EVENT_DEADLINE)) ? "polled-first:deadline-reported" : "polled-first");
+    if (w.now != tp) res.fail("zero-timeout-poll-waited", "a poll with timeout 0 before the stop let " + std::to_string(w.now - tp) + " ms pass");
+  }
   vt::Kid &k = w.kids[(size_t) ch.kid];
   model::ChildScript cs;
   cs.term_mode = c.term_mode;
